@@ -186,14 +186,18 @@ func name(op string, prefix, key []byte) string {
 	return op + " " + string(b)
 }
 
-func (d *DB) Get(prefix []byte, key []byte) (basedb.Obj, bool, error) { return d.inner.Get(nsp(d.ns, prefix), key) }
+func (d *DB) Get(prefix []byte, key []byte) (basedb.Obj, bool, error) {
+	return d.inner.Get(nsp(d.ns, prefix), key)
+}
 func (d *DB) GetMany(prefix []byte, keys [][]byte, it func(basedb.Obj) error) error {
 	return d.inner.GetMany(nsp(d.ns, prefix), keys, it)
 }
-func (d *DB) GetAll(prefix []byte, h func(int, basedb.Obj) error) error { return d.inner.GetAll(nsp(d.ns, prefix), h) }
-func (d *DB) CountPrefix(prefix []byte) (int64, error)                  { return d.inner.CountPrefix(nsp(d.ns, prefix)) }
-func (d *DB) BeginRead() basedb.ReadTxn                                 { return &readTxn{inner: d.inner.BeginRead(), ns: d.ns} }
-func (d *DB) Close() error                                              { return d.inner.Close() }
+func (d *DB) GetAll(prefix []byte, h func(int, basedb.Obj) error) error {
+	return d.inner.GetAll(nsp(d.ns, prefix), h)
+}
+func (d *DB) CountPrefix(prefix []byte) (int64, error) { return d.inner.CountPrefix(nsp(d.ns, prefix)) }
+func (d *DB) BeginRead() basedb.ReadTxn                { return &readTxn{inner: d.inner.BeginRead(), ns: d.ns} }
+func (d *DB) Close() error                             { return d.inner.Close() }
 
 func (d *DB) Set(prefix []byte, key []byte, value []byte) error {
 	return d.in.Do(name("db.Set", prefix, key), func() error { return d.inner.Set(nsp(d.ns, prefix), key, value) })
@@ -262,12 +266,16 @@ type Txn struct {
 
 var _ basedb.Txn = (*Txn)(nil)
 
-func (t *Txn) Get(prefix []byte, key []byte) (basedb.Obj, bool, error) { return t.inner.Get(nsp(t.ns, prefix), key) }
+func (t *Txn) Get(prefix []byte, key []byte) (basedb.Obj, bool, error) {
+	return t.inner.Get(nsp(t.ns, prefix), key)
+}
 func (t *Txn) GetMany(prefix []byte, keys [][]byte, it func(basedb.Obj) error) error {
 	return t.inner.GetMany(nsp(t.ns, prefix), keys, it)
 }
-func (t *Txn) GetAll(prefix []byte, h func(int, basedb.Obj) error) error { return t.inner.GetAll(nsp(t.ns, prefix), h) }
-func (t *Txn) Discard()                                                  { t.inner.Discard() }
+func (t *Txn) GetAll(prefix []byte, h func(int, basedb.Obj) error) error {
+	return t.inner.GetAll(nsp(t.ns, prefix), h)
+}
+func (t *Txn) Discard() { t.inner.Discard() }
 
 func (t *Txn) Set(prefix []byte, key []byte, value []byte) error {
 	return t.in.Do(name("txn.Set", prefix, key), func() error { return t.inner.Set(nsp(t.ns, prefix), key, value) })
